@@ -136,7 +136,7 @@ class C12(Prop):
     rule = ('corpus, then seed-determined random message histories (3-14 messages: task submissions with and '
             'without a named pilot, add_pilots/remove_pilots commands incl. re-adds, foreign-tmgr and rejected '
             'commands, pilot state and task state notifications) for both schedulers, backfilling with default '
-            'and patched HWM/window constants; thorough adds all histories of <= 4 messages over a 9-letter '
+            'and patched HWM/window constants; thorough adds all histories of <= 4 messages over a 10-letter '
             'alphabet (2 pilots, 3 tasks). non-trivial = >= 4 messages of >= 3 kinds with >= 1 task placed by '
             'the scheduling algorithm and >= 1 task forwarded')
     trusted = [
@@ -183,6 +183,8 @@ class C12(Prop):
                 ops.append(['submit', ts])
             elif r < 0.52:
                 free = [p for p in range(1, npil + 1) if p not in added]
+                if not free and rng.random() < 0.75:
+                    continue
                 tm = 'mine' if rng.random() < 0.9 else rng.choice(['foreign', 'none'])
                 if free and rng.random() < 0.93:
                     ps = rng.sample(free, min(len(free), rng.choice([1, 1, 2])))
@@ -198,8 +200,12 @@ class C12(Prop):
                     ever += ps
             elif r < 0.61:
                 tm = 'mine' if rng.random() < 0.9 else rng.choice(['foreign', 'none'])
+                if not added and rng.random() < 0.8:
+                    continue
                 if added and rng.random() < 0.9:
                     ps = rng.sample(added, min(len(added), rng.choice([1, 1, 2])))
+                elif added and rng.random() < 0.5:      # rejected half-way: [added pilot, pilot not added]
+                    ps = [rng.choice(added), rng.choice([p for p in range(1, npil + 2) if p not in added])]
                 else:
                     ps = [rng.randint(1, npil + 1) for _k in range(rng.randint(0, 2))]
                 ops.append(['remove', tm, ps])
@@ -252,9 +258,10 @@ class C12(Prop):
                         lambda: ['remove', 'mine', [2]],
                         lambda: ['pstates', [[1, 'PMGR_ACTIVE'], [2, 'DONE']]],
                         lambda: ['pstates', [[1, 'DONE']]],
-                        lambda: ['tstates', [[u, 'DONE', -1] for u in subm]]]
+                        lambda: ['tstates', [[u, 'DONE', -1] for u in subm]],
+                        lambda: ['remove', 'mine', [1, 2]]]
             for k in (1, 2, 3, 4):
-                for seq in itertools.product(range(9), repeat=k):
+                for seq in itertools.product(range(10), repeat=k):
                     if sum(1 for x in seq if x < 2) > 3:
                         continue
                     for kind in ('rr', 'bf'):
